@@ -1,3 +1,4 @@
 import PdtModel.Audit.Tool
 import PdtModel.Props.C03
 #audit_ns Pdt.C03
+#audit_ns Pdt.RegexProps
